@@ -452,8 +452,11 @@ class CallMixin:
                 else:
                     env["*rest"] = extra
         kw = {k: v for k, v in kwargs.items() if k not in ("*", "**")}
-        pos = [p for p in c.params if not p[0].startswith("*")]
         star = [p for p in c.params if p[0].startswith("*") and not p[0].startswith("**")]
+        names = [p[0] for p in c.params]
+        cut = names.index(star[0][0]) if star else len(names)
+        pos = [p for p in c.params[:cut] if not p[0].startswith("*")]
+        kwonly = [p for p in c.params[cut:] if not p[0].startswith("*")]        # parameters after *args are keyword-only
         for (name, ty, default), a in zip(pos, args):
             env[name] = self.coerce(a, ty, st)
         if len(args) > len(pos):
@@ -463,7 +466,7 @@ class CallMixin:
                 raise Unsupported(f"{self.where(node)}: too many arguments for {c.qual}")
         elif star:
             env[star[0][0][1:]] = env.pop("*rest", V("tuple", xs=[]))
-        for name, ty, default in pos[len(args):]:
+        for name, ty, default in pos[len(args):] + kwonly:
             if name in kw:
                 env[name] = self.coerce(kw.pop(name), ty, st)
             elif default is not None:
